@@ -2,6 +2,7 @@ package main
 
 import (
 	"fmt"
+	"github.com/Oneledger/protocol/action/staking"
 	"math/rand"
 	"os"
 	"strings"
@@ -17,6 +18,7 @@ import (
 	"olverif/internal/hist"
 	"olverif/internal/mon"
 	"olverif/internal/proto"
+	"olverif/internal/txb"
 	"olverif/internal/verdict"
 	"olverif/internal/world"
 )
@@ -327,6 +329,16 @@ func checkC14(tier string) int {
 					for _, v := range w1.Vals {
 						if !v.InGenesis {
 							out = append(out, gen.Build(c, "STAKE", gen.StakeMsg(v, "100"), "a candidate stakes far less than the minimum (a validator record that is never active)", &v.Stake, gen.ConsAccount(v)))
+						}
+					}
+				}
+				if c.H == 9 || c.H == 12 {
+					// ... and a candidate that was elected falls below the minimum again: its record stays, inactive
+					min := mon.StakingOptions(c.S).Min()
+					for _, v := range w1.Vals {
+						if cur := gen.StakeOf(c.S, v.ValAddr).Int64(); !v.InGenesis && cur >= min {
+							out = append(out, gen.Build(c, "UNSTAKE", &staking.Unstake{ValidatorAddress: v.ValAddr, StakeAddress: v.Stake.Addr, Stake: txb.Amt("OLT", fmt.Sprint(cur-min+1))}, "an elected candidate unstakes to just below the minimum (its record stays, inactive)", &v.Stake, gen.ConsAccount(v)))
+							break
 						}
 					}
 				}
